@@ -56,6 +56,10 @@ func contract_Duration_AsDuration(x *Duration) (d time.Duration) {
 	// (this includes every valid Duration)
 	ensures(imp(x != nil && !specSignMismatch(x.Seconds, x.Nanos), int64(d) == specDurationClamp(x.Seconds, x.Nanos)))
 	// ... and for sign-mismatched (invalid) values too, as the property states "for any seconds/nanos"
+	// the part of the sign-mismatched domain on which the code IS exact: seconds*1e9 fits 64 bits
+	// (nanos of the opposite sign then only move the sum towards zero). Finding F2 lives in the
+	// rest; this clause keeps every other sign-mismatched input under proof.
+	ensures(imp(x != nil && specSignMismatch(x.Seconds, x.Nanos) && -9223372036 <= x.Seconds && x.Seconds <= 9223372036, int64(d) == specDurationClamp(x.Seconds, x.Nanos)))
 	ensuresGoal(imp(x != nil && specSignMismatch(x.Seconds, x.Nanos), int64(d) == specDurationClamp(x.Seconds, x.Nanos)))
 	return
 }
